@@ -1,6 +1,10 @@
 package client
 
 import (
+	"context"
+
+	"google.golang.org/grpc"
+
 	"github.com/openconfig/gnmi/client"
 	gpb "github.com/openconfig/gnmi/proto/gnmi"
 )
@@ -12,4 +16,17 @@ func VerifNewClient(sub gpb.GNMI_SubscribeClient, q client.Query) *Client {
 	c.recv = c.defaultRecv
 	c.handler = q.NotificationHandler
 	return c
+}
+
+// VerifNewFromConn is NewFromConn (the constructor for callers that bring
+// their own connection) with the generated gRPC client replaced by the
+// harness's stand-in, so that the Subscribe stream is scripted while Close
+// acts on the real connection object.
+func VerifNewFromConn(ctx context.Context, conn *grpc.ClientConn, d client.Destination, stub gpb.GNMIClient) (*Client, error) {
+	c, err := NewFromConn(ctx, conn, d)
+	if err != nil {
+		return nil, err
+	}
+	c.client = stub
+	return c, nil
 }
